@@ -105,3 +105,12 @@ claim("C03", ENGINE_A + "; A-MAP type-mapping oracle and null-type branches",
       "`type: null` positions (alone, as array items to depth 3, next to length limits) get their `!= nil` branch. Two known findings (format types behind references lose their decoder; "
       "array-of-objects definitions get an anonymous element struct). The behaviour of encoding/json, yaml.v3 and mapstructure on mismatched values is trusted.",
       "as C06", "DESIGN.md §2 C03")
+
+claim("C01", ENGINE_A + "; go/parser + go/types on whole emitted files against real export data; lexical-context classification of every hole (A-CTX); B-ERR instance",
+      "Decides, over the broad union of families x six option sets (~2000 whole files quick), that every emitted file parses, type-checks against exactly the imports the generator registered "
+      "for that run (missing/unused imports, undeclared or duplicate identifiers, ill-typed literals in any keyword/option combination), that every piece of schema text lands in a lexical context "
+      "compatible with its sanitisation, and that no schema text is used as a printf format. Four defects found this way were fixed (nullable format imports, additionalProperties:true imports/raw, "
+      "eight unquoted-name sites); 15 known findings remain (nullable+default, multipleOf on a number definition, unused fmt, default-key field names, tags/pattern back-quotes, name inside the required "
+      "message, go/format fallback). Not decided: gofmt stability, representability of kept bounds in a sized type, shapes outside the families (cross-file refs, goJSONSchema overrides).",
+      "as C06 plus go/types with export data of the real libraries; litter.Sdump modelled as 'Go literal of the dynamic type'",
+      "DESIGN.md §2 C01")
